@@ -49,14 +49,15 @@ theorem componentwise_congruence (kind : Kind) (s : K) (ps : List (Rw K))
 
 variable [DecidableEq K]
 
-/-- **s_model_equiv**: for a netlist of ANY size whose components get pairwise fresh dummy nodes and
+/-- **s_model_equiv** (`_sep`: with the exact separation condition -- no step reads an unknown that is PRIVATE to
+    another step, `Rw.Sep`): for a netlist of ANY size whose components get pairwise fresh dummy nodes and
     source branches, at every point `s ≠ 0`: every solution of the initial-value problem extends to a
     solution of the s-domain model analysed WITHOUT initial conditions (they now sit in the series
     sources), and every solution of the s-domain model restricts to a solution of the initial-value
     problem.  The two solutions agree on every unknown that is not private to a step (all original
     nodes, all source / controlled-source / capacitor-free branch currents). -/
-theorem s_model_equiv (s : K) (hs : s ≠ 0) (ps : List (Alloc K)) (hok : ∀ a ∈ ps, a.OK s)
-    (hap : ps.Pairwise (fun p q => p.Apart q ∧ q.Apart p)) :
+theorem s_model_equiv_sep (s : K) (hs : s ≠ 0) (ps : List (Alloc K)) (hok : ∀ a ∈ ps, a.OK s)
+    (hap : ps.Pairwise (fun p q => (p.sRw s).Sep (q.sRw s) ∧ (q.sRw s).Sep (p.sRw s))) :
     (∀ x, Laws .ivp s (ps.map (·.c)) x → ∃ y, (∀ i, i ∉ sHidden ps → y i = x i) ∧ Laws .lap s (sModel s ps) y) ∧
     (∀ y, Laws .lap s (sModel s ps) y → ∃ x, (∀ i, i ∉ sHidden ps → x i = y i) ∧ Laws .ivp s (ps.map (·.c)) x) := by
   have hkf := sModel_kindFree s ps hok
@@ -72,7 +73,7 @@ theorem s_model_equiv (s : K) (hs : s ≠ 0) (ps : List (Alloc K)) (hok : ∀ a 
   · intro x hx
     have := componentwise_congruence .ivp s (ps.map (Alloc.sRw s))
       (by intro p hp; obtain ⟨a, ha, rfl⟩ := List.mem_map.mp hp; exact (sModel_step s hs a (hok a ha)).1)
-      (by rw [List.pairwise_map]; exact hap.imp (fun h => ⟨(apart_sep s _ _ h.1).1, (apart_sep s _ _ h.2).1⟩))
+      (by rw [List.pairwise_map]; exact hap)
       x (by rw [e1]; exact hx)
     rw [e2, e3] at this
     obtain ⟨y, hy, hl⟩ := this
@@ -80,10 +81,18 @@ theorem s_model_equiv (s : K) (hs : s ≠ 0) (ps : List (Alloc K)) (hok : ∀ a 
   · intro y hy
     have := componentwise_congruence .ivp s (ps.map (Alloc.sRwBack s))
       (by intro p hp; obtain ⟨a, ha, rfl⟩ := List.mem_map.mp hp; exact (sModel_step s hs a (hok a ha)).2)
-      (by rw [List.pairwise_map]; exact hap.imp (fun h => ⟨(apart_sep s _ _ h.1).2, (apart_sep s _ _ h.2).2⟩))
+      (by rw [List.pairwise_map]; exact hap.imp (fun h => ⟨sep_back s _ _ h.1, sep_back s _ _ h.2⟩))
       y (by rw [f2]; exact (Laws_kindFree .ivp .lap s _ hkf y).mpr hy)
     rw [f1, f3] at this
     exact this
+
+/-- the same under the coarser, easily checked freshness condition `Alloc.Apart` (every allotted dummy node and
+    branch index -- used or not -- is untouched by every other step) -/
+theorem s_model_equiv (s : K) (hs : s ≠ 0) (ps : List (Alloc K)) (hok : ∀ a ∈ ps, a.OK s)
+    (hap : ps.Pairwise (fun p q => p.Apart q ∧ q.Apart p)) :
+    (∀ x, Laws .ivp s (ps.map (·.c)) x → ∃ y, (∀ i, i ∉ sHidden ps → y i = x i) ∧ Laws .lap s (sModel s ps) y) ∧
+    (∀ y, Laws .lap s (sModel s ps) y → ∃ x, (∀ i, i ∉ sHidden ps → x i = y i) ∧ Laws .ivp s (ps.map (·.c)) x) :=
+  s_model_equiv_sep s hs ps hok (hap.imp (fun h => ⟨(apart_sep s _ _ h.1).1, (apart_sep s _ _ h.2).1⟩))
 
 /-- **s_model_preserves** (the property for `s_model`): when the s-domain model is well formed and
     non-singular, ITS solution -- whatever solver produced it -- equals the solution of the
@@ -148,6 +157,25 @@ theorem ac_model_equiv (j ω : K) (_hj : j * j = -1) (hω : j * ω ≠ 0) (ps : 
       ∃ x, (∀ i, i ∉ sHidden ps → x i = y i) ∧ Laws .ivp (j * ω) (ps.map (·.c)) x) :=
   s_model_equiv (j * ω) hω ps hok hap
 
+
+/-- **ac_model_equiv_noic** (what `ac_model` is for): for a netlist WITHOUT initial conditions, phasor analysis -- the
+    zero-state Laplace analysis at s = jω, `Kind.lap` -- of the netlist and of its `ac_model` have the same solutions
+    on the shared unknowns (here `j * j = −1` places the point on the imaginary axis; with initial conditions present
+    `ac_model` keeps their sources, which is `ac_model_equiv` above) -/
+theorem ac_model_equiv_noic (j ω : K) (_hj : j * j = -1) (hω : j * ω ≠ 0) (ps : List (Alloc K)) (hok : ∀ a ∈ ps, a.OK (j * ω))
+    (hap : ps.Pairwise (fun p q => p.Apart q ∧ q.Apart p)) (hnoic : ∀ a ∈ ps, a.c.noIC = true) :
+    (∀ x, Laws .lap (j * ω) (ps.map (·.c)) x →
+      ∃ y, (∀ i, i ∉ sHidden ps → y i = x i) ∧ Laws .lap (j * ω) (sModel (j * ω) ps) y) ∧
+    (∀ y, Laws .lap (j * ω) (sModel (j * ω) ps) y →
+      ∃ x, (∀ i, i ∉ sHidden ps → x i = y i) ∧ Laws .lap (j * ω) (ps.map (·.c)) x) := by
+  have hn : ∀ c ∈ ps.map (·.c), c.noIC = true := by
+    intro c hc; obtain ⟨a, ha, rfl⟩ := List.mem_map.mp hc; exact hnoic a ha
+  have h := s_model_equiv (j * ω) hω ps hok hap
+  constructor
+  · intro x hx; exact h.1 x ((Laws_lap_ivp_noIC _ _ hn x).mp hx)
+  · intro y hy
+    obtain ⟨x, hx, hl⟩ := h.2 y hy
+    exact ⟨x, hx, (Laws_lap_ivp_noIC _ _ hn x).mpr hl⟩
 
 /-- non-vacuity of `s_model_equiv`: `V1 1 0 {6/s}; R1 1 2 3; C1 2 0 2 5; L1 2 3 4 7; R2 3 0 1` at s = 2 with
     dummy nodes 10.. and branches 10..: every hypothesis holds -/
